@@ -171,6 +171,17 @@ pub fn run(report: &Report, thorough: bool) -> Evidence {
             // put in front of every key of the alphabet (one step, state set through the hook)
             let mut sweep_chars: Vec<char> = (33u8..=126).map(|b| b as char).filter(|c| c.is_ascii_punctuation()).collect();
             sweep_chars.extend("0 aZ\u{0964}\u{0965}\u{09E7}\u{0983}\u{09BD}\u{09F3}\u{200D}".chars());
+            // ... under all 2^5 settings of the options the rule chain must NOT depend on
+            // {English, suggestions (no database), number pad, ANSI, smart quotes}
+            for other in 0..32u32 {
+            let mut o2 = ctx.opts.clone();
+            o2.english = other & 1 != 0;
+            o2.fsugg = other & 2 != 0;
+            o2.numpad = other & 4 != 0;
+            o2.ansi = other & 8 != 0;
+            o2.smart = other & 16 != 0;
+            let mut ctx = Ctx::new(&o2).expect("context");
+            ctx.with_pre = false;
             for &c in &sweep_chars {
                 for prefix in ["", "\u{0995}"] {
                     let pre = crate::fxgraph::FxState { buf: format!("{}{}", prefix, c), typed: String::new(), pending: 0 };
@@ -199,6 +210,7 @@ pub fn run(report: &Report, thorough: bool) -> Evidence {
                         }
                     }
                 }
+            }
             }
             total.lock().unwrap().merge(&stats);
             if !stats.closed {
